@@ -10,10 +10,12 @@ package verifsys
 // round must change nothing.
 
 import (
+	"encoding/json"
 	"fmt"
 	"math/rand"
 	"sort"
 	"strings"
+	"sync"
 
 	"k8s.io/apimachinery/pkg/apis/meta/v1/unstructured"
 
@@ -280,8 +282,9 @@ func (s Scn) rounds() int {
 }
 
 // runConv executes the steps (optionally without disturbances), settles and returns
-// (step outputs, sets, objs, projection, number of objects an extra round changed).
-func runConv(scn Scn, disturbed bool) ([]string, string, string, string, int) {
+// (step outputs, sets, objs, projection, number of objects an extra round changed, what the operator
+// process has registered with its dynamic cache at the end).
+func runConv(scn Scn, disturbed bool) ([]string, string, string, string, int, string) {
 	y := newSys(scn)
 	var outs []string
 	for _, st := range scn.Steps {
@@ -298,6 +301,7 @@ func runConv(scn Scn, disturbed bool) ([]string, string, string, string, int) {
 	}
 	sets, objs := y.finalStrs()
 	proj := y.projection()
+	regs := strings.Join(y.env.Cache.Registrations(), ";")
 	before := y.stateMap()
 	y.settleRound()
 	after := y.stateMap()
@@ -312,15 +316,52 @@ func runConv(scn Scn, disturbed bool) ([]string, string, string, string, int) {
 			changed++
 		}
 	}
-	return outs, sets, objs, proj, changed
+	return outs, sets, objs, proj, changed, regs
 }
 
-// ExecConv runs the disturbed scenario and its undisturbed reference.
+// refResult is what ExecConv needs of the undisturbed reference run.
+type refResult struct {
+	proj  string
+	extra int
+	regs  string
+}
+
+// refCache: undisturbed scenario (JSON) -> its result.  The reference run is a deterministic function
+// of the scenario without faults and drift steps, and whole families of scenarios (every single
+// fault of one lifecycle) share it.
+var refCache sync.Map
+
+func referenceOf(scn Scn) refResult {
+	u := scn
+	u.Steps = nil
+	for _, st := range scn.Steps {
+		if st.Drift {
+			continue
+		}
+		st.Fault = nil
+		u.Steps = append(u.Steps, st)
+	}
+	b, err := json.Marshal(u)
+	if err != nil {
+		panic(err)
+	}
+	if v, ok := refCache.Load(string(b)); ok {
+		return v.(refResult)
+	}
+	_, _, _, ref, refExtra, refRegs := runConv(scn, false)
+	res := refResult{proj: ref, extra: refExtra, regs: refRegs}
+	refCache.Store(string(b), res)
+	return res
+}
+
+// ExecConv runs the disturbed scenario and its undisturbed reference.  RW / EW: the registrations
+// (kind: owners) the operator process holds with its dynamic cache at the end of the reference /
+// the disturbed run - in-memory state that every restart wipes and the passes have to rebuild.
 func ExecConv(scn Scn) string {
-	outs, sets, objs, end, extra := runConv(scn, true)
-	_, _, _, ref, refExtra := runConv(scn, false)
-	return strings.Join(outs, " ## ") + " ## " + sets + " ## " + objs + " ## REF " + ref + " ## END " + end +
-		fmt.Sprintf(" ## EXTRA %d %d", extra, refExtra)
+	outs, sets, objs, end, extra, endRegs := runConv(scn, true)
+	ref := referenceOf(scn)
+	return strings.Join(outs, " ## ") + " ## " + sets + " ## " + objs + " ## REF " + ref.proj + " ## END " + end +
+		fmt.Sprintf(" ## EXTRA %d %d", extra, ref.extra) + " ## RW [" + ref.regs + "] ## EW [" + endRegs + "]"
 }
 
 // callsOfStep runs the scenario up to step i (with the faults of the earlier steps) and returns the
@@ -469,6 +510,166 @@ func ConvBase(r *rand.Rand, delegated bool) Scn {
 	return s
 }
 
+// ConvPaused builds an undisturbed lifecycle whose FIXED desired state contains a PAUSED revision
+// (spec.lifecycleState = Paused: a user's maintenance pause, or what the ObjectDeployment controller
+// does with an old revision right before it archives it).  A paused revision is hands-off (C09): it
+// repairs nothing, so what it is frozen in is part of the history - the steps before the pause are
+// an undisturbed "prefix" (no injection points).  Everything after the pause is: the paused revision
+// (and the other one) are reconciled a few times - every API call of these passes is an injection
+// point, and DisturbPaused restarts the operator in between - and then the revision either STAYS
+// paused (it has to keep reporting Paused=True and the objects it controls, whatever happened to the
+// operator process), or is un-paused again, or (old revision) is archived.
+func ConvPaused(r *rand.Rand, delegated, two bool) Scn {
+	s := Scn{Cluster: r.Intn(5) == 0, Rounds: 10}
+	objNS := ""
+	if s.Cluster {
+		objNS = "ns1"
+	}
+	clusterKind := map[string]bool{}
+	if s.Cluster {
+		for _, n := range []string{"a", "b", "c", "d"} {
+			clusterKind[n] = r.Intn(3) == 0
+		}
+	}
+	mk := func(name, payload string) verifphase.PObj {
+		o := verifphase.PObj{Kind: "NsThing", NS: objNS, Name: name, CP: pick(r, []string{"Prevent", "Prevent", "IfNoController", "None"}), Payload: payload, DryRun: "accept"}
+		if clusterKind[name] {
+			o.Kind, o.NS = "ClThing", ""
+		}
+		return o
+	}
+	class := func(i int) string {
+		if delegated && (i == 0 || r.Intn(3) == 0) {
+			return "default"
+		}
+		return ""
+	}
+	os1 := SetSpec{Name: "os1", Phases: []PhaseSpec{
+		{Name: "p1", Class: class(0), Objects: []verifphase.PObj{mk("a", "x")}},
+		{Name: "p2", Class: class(1), Objects: []verifphase.PObj{mk("b", "x")}}}}
+	if r.Intn(3) == 0 {
+		os1.Phases[1].Objects = append(os1.Phases[1].Objects, mk("d", "x"))
+	}
+	pkg := pick(r, []string{"", "pkg"})
+	os1.PkgLabel = pkg
+	s.Sets = []SetSpec{os1}
+	if two {
+		os2 := SetSpec{Name: "os2", Previous: []string{"os1"}, PkgLabel: pkg, Phases: []PhaseSpec{
+			{Name: "p1", Class: class(0), Objects: []verifphase.PObj{mk("a", pick(r, []string{"x", "y"}))}},
+			{Name: "p2", Class: class(1), Objects: []verifphase.PObj{mk("b", "x"), mk("c", "x")}}}}
+		s.Sets = append(s.Sets, os2)
+	}
+	ready := func(name string) Step {
+		e := verifphase.EnvOp{Op: "setReady", Kind: "NsThing", NS: "ns1", Name: name, Ready: true, ObsGen: -1}
+		if clusterKind[name] {
+			e.Kind, e.NS = "ClThing", ""
+		}
+		return Step{Op: "env", Env: []verifphase.EnvOp{e}}
+	}
+	add := func(st ...Step) { s.Steps = append(s.Steps, st...) }
+	touchPhases := func(sp SetSpec) {
+		for _, ph := range sp.Phases {
+			if ph.Class != "" {
+				add(Step{Op: "phase", Set: sp.Name + "-" + ph.Name})
+			}
+		}
+	}
+	rollout := func(sp SetSpec) {
+		add(Step{Op: "reconcile", Set: sp.Name})
+		for _, ph := range sp.Phases {
+			if ph.Class != "" {
+				pn := sp.Name + "-" + ph.Name
+				add(Step{Op: "reconcile", Set: sp.Name}, Step{Op: "phase", Set: pn})
+				for _, o := range ph.Objects {
+					add(ready(o.Name))
+				}
+				add(Step{Op: "phase", Set: pn}, Step{Op: "reconcile", Set: sp.Name})
+			} else {
+				add(Step{Op: "reconcile", Set: sp.Name})
+				for _, o := range ph.Objects {
+					add(ready(o.Name))
+				}
+				add(Step{Op: "reconcile", Set: sp.Name})
+			}
+		}
+		add(Step{Op: "reconcile", Set: sp.Name})
+	}
+	// which revision is paused: the old one (before archival) or the latest (maintenance)
+	paused := s.Sets[0]
+	if two && r.Intn(3) == 0 {
+		paused = s.Sets[1]
+	}
+	for _, sp := range s.Sets {
+		rollout(sp)
+	}
+	last := s.Sets[len(s.Sets)-1]
+	lastDelegates := false
+	for _, ph := range last.Phases {
+		lastDelegates = lastDelegates || ph.Class != ""
+	}
+	// (not for a paused revision that delegates phases: the pause reaches a phase object only with
+	// the ObjectSet's next pass, until then the phase controller keeps rolling out - how far a
+	// revision paused in mid-rollout gets is decided by the schedule, not by the desired state)
+	if r.Intn(4) == 0 && !(last.Name == paused.Name && lastDelegates) {
+		// the pause comes while the latest revision is still rolling out: it stays where it is
+		cut := 0
+		for i, st := range s.Steps {
+			if st.Set == last.Name && st.Op == "reconcile" {
+				cut = i
+				break
+			}
+		}
+		if n := len(s.Steps) - cut; n > 2 {
+			s.Steps = s.Steps[:cut+1+r.Intn(n-1)]
+		}
+	}
+	for i := range s.Steps {
+		if isPass(s.Steps[i]) {
+			s.Steps[i].Value = "prefix"
+		}
+	}
+	add(Step{Op: "lifecycle", Set: paused.Name, Value: "Paused"})
+	rounds := func(n int) {
+		for i := 0; i < n; i++ {
+			for _, sp := range s.Sets {
+				add(Step{Op: "reconcile", Set: sp.Name})
+				touchPhases(sp)
+			}
+		}
+	}
+	rounds(2 + r.Intn(2))
+	switch end := r.Intn(4); {
+	case end == 0: // un-paused again
+		add(Step{Op: "lifecycle", Set: paused.Name, Value: "Active"})
+		rounds(2)
+	case end == 1 && two && paused.Name == "os1": // the paused old revision is archived
+		add(Step{Op: "lifecycle", Set: "os1", Value: "Archived"})
+		rounds(3)
+	default: // stays paused
+	}
+	return s
+}
+
+// DisturbPaused disturbs a ConvPaused lifecycle after the pause: nRestarts operator restarts at
+// random positions behind the pause step, then nFaults faults at random API calls of random passes
+// behind it (Disturb; passes of the prefix are no injection points).
+func DisturbPaused(r *rand.Rand, base Scn, nFaults, nRestarts int) Scn {
+	s := base
+	s.Steps = append([]Step(nil), base.Steps...)
+	from := 0
+	for i, st := range s.Steps {
+		if st.Op == "lifecycle" && st.Value == "Paused" {
+			from = i + 1
+			break
+		}
+	}
+	for k := 0; k < nRestarts; k++ {
+		i := from + r.Intn(len(s.Steps)-from+1)
+		s.Steps = append(s.Steps[:i], append([]Step{{Op: "restart", Drift: true}}, s.Steps[i:]...)...)
+	}
+	return placeFaults(r, s, nFaults)
+}
+
 // driftStep is a third-party edit / deletion of a managed object.
 func driftStep(r *rand.Rand, s Scn) Step {
 	name := pick(r, []string{"a", "b", "c", "d"})
@@ -513,6 +714,11 @@ func driftStep(r *rand.Rand, s Scn) Step {
 }
 
 func isPass(st Step) bool { return st.Op == "reconcile" || st.Op == "phase" }
+
+// injectable: the pass is an injection point for faults.  Passes carrying a Value are not:
+// "repair" (the passes a third-party edit triggers, see Disturb) and "prefix" (the undisturbed
+// history that establishes the state a paused revision is frozen in, see ConvPaused).
+func injectable(st Step) bool { return isPass(st) && st.Value == "" }
 
 // Disturb injects nFaults faults at random API calls of random passes (each followed by the
 // retry a real controller would schedule) and nDrift drift steps at random positions.
@@ -579,10 +785,16 @@ func Disturb(r *rand.Rand, base Scn, nFaults, nDrift int) Scn {
 		i := r.Intn(len(s.Steps) + 1)
 		s.Steps = append(s.Steps[:i], append([]Step{{Op: "restart", Drift: true}}, s.Steps[i:]...)...)
 	}
+	return placeFaults(r, s, nFaults)
+}
+
+// placeFaults injects nFaults faults at random API calls of random injectable passes, each
+// (mostly) followed by the retry a real controller would schedule.
+func placeFaults(r *rand.Rand, s Scn, nFaults int) Scn {
 	// faults are placed left to right: the calls of a pass depend on everything before it
 	var passes []int
 	for i, st := range s.Steps {
-		if isPass(st) && st.Value != "repair" {
+		if injectable(st) {
 			passes = append(passes, i)
 		}
 	}
@@ -614,7 +826,7 @@ func Disturb(r *rand.Rand, base Scn, nFaults, nDrift int) Scn {
 func AllSingleFaults(base Scn, each func(Scn)) int {
 	n := 0
 	for i, st := range base.Steps {
-		if !isPass(st) {
+		if !injectable(st) {
 			continue
 		}
 		calls := callsOfStep(base, i)
@@ -634,7 +846,23 @@ func AllSingleFaults(base Scn, each func(Scn)) int {
 func ConvTags(s Scn, out string) []string {
 	t := []string{fmt.Sprintf("sets=%d", len(s.Sets))}
 	nf, nd := 0, 0
+	life := map[string]string{}
+	anyPaused := func() bool {
+		for _, v := range life {
+			if v == "Paused" {
+				return true
+			}
+		}
+		return false
+	}
 	for _, st := range s.Steps {
+		if st.Op == "lifecycle" {
+			life[st.Set] = st.Value
+		}
+		// the operator process is replaced while a revision is paused
+		if anyPaused() && (st.Op == "restart" || (st.Fault != nil && st.Fault.Mode == "crash")) {
+			t = append(t, "restart-while-paused")
+		}
 		if st.Fault != nil {
 			nf++
 			t = append(t, "fault-"+st.Fault.Mode, "fault-in-"+st.Op)
@@ -655,6 +883,9 @@ func ConvTags(s Scn, out string) []string {
 		}
 	}
 	t = append(t, fmt.Sprintf("faults=%d", nf), fmt.Sprintf("drift=%d", nd))
+	if anyPaused() {
+		t = append(t, "ends-paused")
+	}
 	if len(s.phaseNames()) > 0 {
 		t = append(t, "delegated")
 	}
@@ -664,7 +895,7 @@ func ConvTags(s Scn, out string) []string {
 	if strings.Contains(out, "R fault") {
 		t = append(t, "fault-hit")
 	}
-	for _, w := range []string{"Available=True", "Succeeded=True", "Archived=True", "InTransition=True", "budget-mismatch"} {
+	for _, w := range []string{"Available=True", "Succeeded=True", "Archived=True", "InTransition=True", "Paused=True", "CacheNotStarted", "budget-mismatch"} {
 		if strings.Contains(out, w) {
 			t = append(t, "out~"+w)
 		}
